@@ -341,6 +341,7 @@ pub fn run(ctx: &Ctx, replay: Option<&str>) -> i32 {
         total,
         |ws, c, counting| match check(ctx, ws, c, counting, &cfgs) {
             Err(f) => {
+                let f = if let Case02::Prog(p) = c { f.with_features(&p.features) } else { f };
                 if let Some(k) = ctx.match_known(&f) {
                     if counting {
                         ctx.note_known_hit(&k.id);
@@ -363,7 +364,12 @@ pub fn run(ctx: &Ctx, replay: Option<&str>) -> i32 {
         .map(|(c, f)| match &c {
             Case02::Prog(p) => {
                 let mut last = f.clone();
+                // the reduction has a wall-clock budget: past it every further candidate is rejected
+                let reduce_deadline = std::time::Instant::now() + std::time::Duration::from_secs(if ctx.quick() { 150 } else { 900 });
                 let reduced = svmodel::shrink::reduce(&p.program, 600, &mut |q| {
+                    if std::time::Instant::now() > reduce_deadline {
+                        return false;
+                    }
                     let cand = c01::ProgCase { program: q.clone(), text: render_program(q), features: vec![], excluded: vec![] };
                     match check_prog(ctx, &mut ws, &cand, false, &cfgs) {
                         Err(g) if g.sig == f.sig => {
